@@ -41,6 +41,7 @@ type c03Case struct {
 	Hosts      int      `json:"hosts"`
 	Reqs       []c03Req `json:"requests"`
 	RawLz4     bool     `json:"raw_lz4,omitempty"` // do not route around the known lz4-decoder finding
+	Pipelined  bool     `json:"pipelined,omitempty"` // all requests leave in one write; the answers are in flight together
 }
 
 func versionLE(a, b primitive.ProtocolVersion) bool { return a <= b } // wire order: v3<v4<v5<DSEv1<DSEv2
@@ -66,6 +67,7 @@ func c03Check(c c03Case) *evid.Fail {
 		atomic.StoreInt32(&wire.Lz4Raw, 1)
 		defer atomic.StoreInt32(&wire.Lz4Raw, 0)
 	}
+	frames := make([]*wire.Frame, len(c.Reqs))
 	for i, q := range c.Reqs {
 		plain, _ := hex.DecodeString(q.Body)
 		out := fakecass.Outcome{Kind: "raw", RawOp: q.RespOp, RawFlags: q.RespFlag, RawBody: q.RespBody}
@@ -78,10 +80,29 @@ func c03Check(c c03Case) *evid.Fail {
 		if err != nil {
 			return evid.Failf("harness-build", "%v", err)
 		}
-		from := cl.NumFrames()
-		stallReset()
-		if err := cl.SendFrame(f); err != nil {
+		frames[i] = f
+	}
+	base := cl.NumFrames()
+	if c.Pipelined {
+		// all requests leave in one write: their responses are in flight together
+		var buf []byte
+		for _, f := range frames {
+			buf = append(buf, f.Bytes()...)
+		}
+		if err := cl.Send(buf); err != nil {
 			return evid.Failf("harness-send", "%v", err)
+		}
+	}
+	for i, q := range c.Reqs {
+		plain, _ := hex.DecodeString(q.Body)
+		f := frames[i]
+		from := base
+		stallReset()
+		if !c.Pipelined {
+			from = cl.NumFrames()
+			if err := cl.SendFrame(f); err != nil {
+				return evid.Failf("harness-send", "%v", err)
+			}
 		}
 		r := cl.WaitStream(f.Stream, from, 1, posWait)
 		op := opName(primitive.OpCode(q.Op))
@@ -269,6 +290,10 @@ func c03Gen(rt *rapid.T) c03Case {
 	c := c03Case{MaxVersion: int(maxV), Version: int(v), Comp: comps[rapid.IntRange(0, len(comps)-1).Draw(rt, "comp")], Hosts: rapid.IntRange(1, 2).Draw(rt, "hosts")}
 	maxLarge := evid.Pick(1<<20, 4<<20)
 	n := rapid.IntRange(1, 5).Draw(rt, "nreq")
+	if rapid.IntRange(0, 3).Draw(rt, "pipelined") == 0 {
+		c.Pipelined = true
+		n, maxLarge = rapid.IntRange(6, 48).Draw(rt, "npipelined"), 4096
+	}
 	for i := 0; i < n; i++ {
 		tok := nextToken()
 		cl := protogen.Consistency(rt, "cl")
@@ -329,6 +354,9 @@ func TestC03(t *testing.T) {
 	runProp(t, rec, "transparent", perShard(evid.Pick(12000, 300000)), func(rt *rapid.T) c03Case {
 		c := c03Gen(rt)
 		labels := []string{"max:" + protogen.VersionName(primitive.ProtocolVersion(c.MaxVersion)), "client:" + protogen.VersionName(primitive.ProtocolVersion(c.Version)), "comp:" + map[bool]string{true: c.Comp, false: "none"}[c.Comp != ""]}
+		if c.Pipelined {
+			labels = append(labels, "pipelined")
+		}
 		key := ""
 		for _, q := range c.Reqs {
 			labels = append(labels, opName(primitive.OpCode(q.Op)), "resp:"+q.Note)
